@@ -321,3 +321,32 @@ def noreturn_call(tu, ev):
             return False
         return f.q.startswith(NS) or f.q in ("abort", "std::abort", "std::terminate", "exit", "std::exit")
     return False
+
+
+def process_wide_state(ctx, tu, rule, roles):
+    """The library's registries (current reporter, OK reporter, current tracer, the global lock) are static objects
+    handed out by an accessor: `static T obj; return obj;`.  The properties that speak about 'the installed'
+    reporter / 'the' tracer / 'the' lock need ONE object per process: a thread_local object gives every thread its own
+    and silently splits the registry.  `roles` are the accessors' names; what they return must be (or refer to) a
+    variable with static storage duration that is not thread_local.  An accessor that hands out nothing with static
+    storage is an unrecognised idiom (analysis broken)."""
+    n = 0
+    for role in roles:
+        for fn in tu.find(role):
+            if not fn.has_body:
+                continue
+            gv = []
+            for _, e in fn.events():
+                if e["e"] == "return":
+                    gv += [t for t in subtrees(e.get("x")) if isinstance(t, list) and t[:1] == ["gvar"]]
+            n += 1
+            if not gv:
+                ctx.ob(rule, "%s (process-wide registry)" % fn.qe, None, pattern=fn.pat, unit=tu.name, inst=fn.q,
+                       detail="%s does not return an object with static storage duration" % fn.qe)
+                continue
+            tls = [t for t in gv if "tls" in t[3:]]
+            ctx.ob(rule, "%s (process-wide registry)" % fn.qe, not tls, pattern=fn.pat, unit=tu.name,
+                   inst=fn.q, detail="" if not tls else "the registry object `%s` handed out by %s is thread_local: every "
+                   "thread gets its own copy, so what one thread installs is not what another thread's calls use"
+                   % (tls[0][1], fn.qe))
+    return n
